@@ -53,7 +53,12 @@ MANIFEST = {
             "reachable quiescent state. Regression theorems of fixed defects: C09_latest_flag_given_back (ctx-latest-rev-lost, fixed "
             "21681e3), C09_feature_bits_restored (ctx-features-kept-implemented / -imported, fixed af27b8d). Beyond obs: "
             "C09_later_load_unaffected (a later call depends on the C state `core` only) but C09_later_load_affected_refuted "
-            "(LYS_MOD_IMPORTED_REV stays: known ctx-hidden-state-left); C09_data_trees_still_valid_refuted (the failing call and the "
+            "(LYS_MOD_IMPORTED_REV stays: known ctx-hidden-state-left), and hence the whole-history form is REFUTED too: "
+            "C09_history_failed_ops_invisible_refuted (contexts without EXPLICIT_COMPILE: obs at the end of a history of calls from "
+            "the new context is not always obs at the end of its calls that did not return RErr, succ_ops) with "
+            "C09_history_counterexample_quiescent (in the counterexample every state between two calls is quiescent, so quiescence "
+            "preservation is not the missing piece; the same history is the T2 ctxs witness imported-rev, where model and library "
+            "agree line by line, and ctx-restore tags it on the library via the shadow context); C09_data_trees_still_valid_refuted (the failing call and the "
             "revert recompile old modules: known ctx-revert-recompiles) while C09_parse_failure_keeps_compiled_trees (a failure in the "
             "parse stage compiles nothing); C09_change_count_monotone (modulo 2^16, not restored, not in obs). Tie: T2 ctxs - model "
             "and real library print identical lines after every operation of witness, systematic (every fault kind at every "
@@ -68,8 +73,11 @@ MANIFEST = {
             "ctx-imp-features-kept (d89c6b6), ctx-explicit-compile-partial (c018937), ctx-target-not-compiled (d873110), "
             "ctx-ref-implemented-set-late (1c17162).",
     "note": "The compiled schema of the model is abstract (which features of the module and of its imports were enabled, plus "
-            "whether disabled nodes were already removed). Preservation of quiescence by successful operations is tested on the model "
-            "only (oracle ctx-model-inv, which also re-evaluates the main theorem along scripts), not proved. Most failing operations "
+            "whether disabled nodes were already removed). Preservation of quiescence is tested on the model only (oracle ctx-model-inv, which "
+            "also re-evaluates the main theorem along scripts), not proved: by successful calls without EXPLICIT_COMPILE, and (seen "
+            "on every failing call of the generated scripts) by failing calls from a quiescent state; a proof needs one more "
+            "invariant of the revert (a to_compile mark only inside the dependency sets being recompiled) and would extend the main "
+            "theorem to runs of failing calls only, not to whole histories (see C09_history_counterexample_quiescent). Most failing operations "
             "of the random scripts (very roughly 85%) start from a quiescent state and are covered by the main theorem; the others "
             "are explicit-compile states with pending changes. Open known findings: ctx-explicit-revert-pending, "
             "ctx-hidden-state-left, ctx-revert-recompiles, ctx-assert-latest.",
